@@ -21,6 +21,15 @@ CLAIMS = {
                 'changeover distance max(dcrit[A],dcrit[B]) and range over the same pair classes; the TRACE halves are masked by K and !K over the same matrix entry and pair classes.',
         not_decided='numeric equality with the Newtonian sum, loop-domain equality with the mathematical pair set, tree multipole bound, compensated-summation accuracy',
         design_ref='3/C02'),
+    'C03': dict(
+        module='c03', level='other',
+        technique='dimension typing (abstract interpretation over (L,T,M) exponent vectors) of the universal-variable solver and its call sites; loop-bound classification; table check',
+        decided='(thin) the inverse-factorial table of the Stumpff series is exact to 1 ulp; the scalar solver has exactly the known callers; at every call site the mass parameter has dimension L^3/T^2 '
+                '(one G, one mass; frozen exception WHFast512 with G==1); every +, -, quantity comparison and function argument inside reb_whfast_kepler_solver and the Stiefel functions is dimensionally '
+                'homogeneous with M: L^3/T^2, dt: T, Gs[k]: (T/L)^k, and Gs[k] is multiplied by X^k; every loop of the solver and its helpers is constant-bounded or carries a recorded termination argument '
+                'whose guard (finiteness guard of the argument halving, bracket-width test of the bisection) is present.',
+        not_decided='exactness to rounding error, branch selection correctness, NaN freedom, agreement of the AVX512 solver (runtime numerics) - the claim is thin and says so',
+        design_ref='3/C03'),
     'C04': dict(
         module='c04', level='other',
         technique='polynomial identities (sympy) on pair updates, merge resolver and diagnostics; operator-sequence COM accounting; component isomorphism',
